@@ -36,6 +36,7 @@ VALUES = {
     'r99994': 0.99994,      # rounds to 0.9999
     'tiny': 0.00004,        # rounds to 0
     'p0004': 0.0004,        # 0.04 %
+    'p0001': 0.0001,        # the smallest value that survives four-decimal rounding
 }
 
 
@@ -56,6 +57,10 @@ def exact(spec, n):
     kind = spec[0]
     if n < 1:
         raise ValueError('attempts below 1 count as 1; clamp before asking the reference')
+    if kind == 'as':        # ['as', how, *inner]: the inner schedule handed over as another kind of callable
+        return exact(spec[2:], n)
+    if n > BIG and kind in ('geo', 'ramp'):
+        return exact_big(spec, n)
     if kind == 'lin':
         after, steps, minimum = int(spec[1]), int(spec[2]), frac(spec[3])
         if n <= after:
@@ -78,8 +83,34 @@ def exact(spec, n):
     raise ValueError('unknown schedule spec %r' % (spec,))
 
 
+BIG = 5000
+
+
+def exact_big(spec, n):
+    """
+    Documented value for attempts far beyond the exhaustive range (a Fraction; for a geometric schedule
+    a Fraction of the float power, which is all the four-decimal comparison needs -- the exact rational
+    power of e.g. 0.99 ** (10**18) cannot be written down).
+    """
+    import math
+    kind = spec[0]
+    if kind in ('geo', 'ramp'):
+        f = frac(spec[1]) if kind == 'geo' else Fraction(VALUES[spec[1]])
+        if f == 1:
+            return Fraction(1)
+        if f == 0:
+            return Fraction(0)
+        if n - 1 <= BIG:
+            return f ** (n - 1)
+        exponent = (n - 1) * math.log(float(f))
+        return Fraction(0) if exponent < -60 else Fraction(math.exp(exponent))
+    return exact(spec, n)
+
+
 def describe_spec(spec):
     kind = spec[0]
+    if kind == 'as':
+        return '%s [handed over as a %s]' % (describe_spec(spec[2:]), spec[1])
     if kind == 'lin':
         return 'LinearCredit(decrease_credit_after=%s, decrease_credit_steps=%s, minimum_credit=%s)' % tuple(spec[1:4])
     if kind == 'geo':
